@@ -2,8 +2,8 @@
 standard argument signature, built through the public macrospec API."""
 from . import doc as D
 
-SLOT_KINDS = ['*', '[', '{', 'm', 'o', 's', 't+', 'r()', 'd<>', 'v', 'v||']
-ENV_SLOT_KINDS = ['*', '[', '{', 'm', 'o', 's', 'd<>', 'r()', 't+']
+SLOT_KINDS = ['*', '[', '{', 'm', 'o', 's', 't+', 'r()', 'd<>', 'v', 'v||', 't~', 't&']
+ENV_SLOT_KINDS = ['*', '[', '{', 'm', 'o', 's', 'd<>', 'r()', 't+', 't~']
 
 
 def custom_vocab(rng, unknown_ok=None, n_macros=12, n_envs=5, full_cover_index=None):
@@ -41,6 +41,7 @@ def custom_vocab(rng, unknown_ok=None, n_macros=12, n_envs=5, full_cover_index=N
     macros['mth'] = D.M('{', ['math'])
     macros['txto'] = D.M('[{', ['text', 'text'])
     macros['vv'] = D.M('v')
+    macros['tens'] = D.M(['e{^_}'], hidden=True)     # embellishments: used by hand-written documents only
     macros['vvb'] = D.M(['{', 'v'])
     macros['\\'] = D.M(['*', '[nospace'])
     macros['&'] = D.M('')
